@@ -259,6 +259,7 @@ pub fn run(args: &[String]) -> i32 {
         w.put(&o);
     }
     w.put(&concurrent_round_trips());
+    w.put(&well_known_names());
     w.finish();
     0
 }
@@ -314,4 +315,51 @@ fn concurrent_round_trips() -> Value {
         failures.extend(b.into_iter().take(3));
     }
     json!({"id": "__concurrent__", "round_trips_alone": alone, "threads": 8, "conversions_per_thread": 900, "failures": n, "examples": failures.into_iter().take(6).collect::<Vec<_>>()})
+}
+
+#[allow(non_camel_case_types)]
+#[derive(Debug, Clone, Copy, PartialEq, Serialize, Deserialize)]
+enum WellKnown { ok, error, r#true, r#false, nil, undefined, normal, shutdown, infinity, badarg, badarith, badmatch, noproc, timeout, noconnection, other_name }
+
+/// unit variants named like the atoms the library keeps pre-built: the term of each is the atom of that very name, the bytes a peer
+/// writes for that name come back as that variant, and both round trips return the variant
+fn well_known_names() -> Value {
+    use WellKnown::*;
+    let all = [(ok, "ok"), (error, "error"), (r#true, "true"), (r#false, "false"), (nil, "nil"), (undefined, "undefined"), (normal, "normal"), (shutdown, "shutdown"),
+               (infinity, "infinity"), (badarg, "badarg"), (badarith, "badarith"), (badmatch, "badmatch"), (noproc, "noproc"), (timeout, "timeout"), (noconnection, "noconnection"),
+               (other_name, "other_name")];
+    let mut bad = Vec::new();
+    for (v, name) in all {
+        let r = catch(|| {
+            let mut why = Vec::new();
+            match erltf_serde::to_term(&v) {
+                Ok(t) => {
+                    if t.atom_name() != Some(name) {
+                        why.push(format!("to_term gives {:?}", t));
+                    }
+                    if erltf_serde::from_term::<WellKnown>(&t).ok() != Some(v) {
+                        why.push("to_term / from_term does not return the variant".to_string());
+                    }
+                }
+                Err(e) => why.push(format!("to_term: {e:?}")),
+            }
+            let mut peer = vec![131u8, 119, name.len() as u8];
+            peer.extend_from_slice(name.as_bytes());
+            if erltf_serde::from_bytes::<WellKnown>(&peer).ok() != Some(v) {
+                why.push("the bytes a peer writes for this atom do not come back as the variant".to_string());
+            }
+            match erltf_serde::to_bytes(&v) {
+                Ok(b) if b == peer => {}
+                Ok(b) => why.push(format!("to_bytes writes {:?}", b)),
+                Err(e) => why.push(format!("to_bytes: {e:?}")),
+            }
+            why
+        });
+        match r {
+            Ok(why) if why.is_empty() => {}
+            Ok(why) => bad.push(json!({"variant": name, "why": why})),
+            Err(p) => bad.push(json!({"variant": name, "why": [format!("panic: {p}")]})),
+        }
+    }
+    json!({"id": "__wellknown__", "variants": all.len(), "bad": bad})
 }
